@@ -60,15 +60,17 @@ func exec(x *fw.Ctx, c Case) {
 func init() {
 	fw.Register(fw.Spec[Case]{
 		ID: "C04",
-		Rule: "part A: (lambda list, argument vector) - the 768 lambda lists of the shape grid (0-3 required x 0-2 optional x defaults x rest x 0-3 keys x defaults x aux) " +
-			"x EVERY argument vector of length 0..3 (quick) / 0..5 (thorough) over {integer, each declared keyword, a foreign keyword}, then a seed-independent probe block of 44 boundary " +
-			"vectors per lambda list (too few/exact/too many positionals x key order, duplicates, keyword as value, unknown key, odd tail, non-keyword key, keyword naming a non-key parameter), " +
-			"the same probes on 128 variant lambda lists (init forms that must be evaluated, &allow-other-keys, &key without names, aux initialised from a variable), " +
-			"a block of calls made where the caller has variables named like the parameters, a block where every optional and key is supplied with nil, t or a value equal to its own default, then seeded vectors of length 0..8 (values: integers, nil, t, own default); " +
-			"every case is called through defun (evaluated and compiled), funcall of the symbol, funcall/apply of a lambda, a lambda in operator position and multiple-value-call. " +
+		Rule: "part A: (lambda list, argument vector, caller scope) judged sharply against the reference binder - no avoid set. " +
+			"The 768 lambda lists of the shape grid (0-3 required x 0-2 optional x defaults x rest x 0-3 keys x defaults x aux) x EVERY argument vector of length 0..3 (quick) / 0..5 (thorough) over {integer, each declared keyword, a foreign keyword}; " +
+			"a seed-independent probe block of 48 boundary vectors per lambda list (too few/exact/too many positionals x key order, duplicates, keyword as value, unknown key, odd tail, non-keyword key, keyword naming a non-key parameter); " +
+			"the same probes on 176 variant lambda lists (computed init forms, init forms reading earlier parameters, bare-variable init forms, &allow-other-keys, &key without names, init forms naming a LATER parameter); " +
+			"calls made where the caller binds variables named like the parameters; every optional and key SUPPLIED with nil, t or a value equal to its own default; " +
+			"the traced form of every grid lambda list - each optional/key/aux init form is (c04-init N earlier...), a harness builtin with a recorded side effect that reads every earlier parameter - x 26 vectors, so that evaluation order, exactly-once, not-when-supplied and before-the-body are observed; " +
+			"then seeded vectors of length 0..8 (values: integers, nil, t, own default; a third on traced lambda lists). Every case is called through defun (evaluated and compiled), funcall of the symbol, funcall/apply of a lambda, a lambda in operator position and multiple-value-call. " +
+			"Oracle: too few/too many arguments must be a condition with the body marker not run; every parameter value and the trace of init-form side effects must equal the binder's; unknown keys are accepted and ignored (slip documents allow-other-keys as always true); " +
+			"only an odd keyword tail and a non-keyword in key position are left open (error, or correct positional bindings). " +
 			"part B: every function of every package (enumerated at run time) x every argument count 0..documented maximum+2 x six argument flavours. " +
-			"distinct = distinct case JSON; non-trivial = judged against the reference binder (A) or a callable, not denylisted function with a readable documented lambda list (B). " +
-			"Known deviations (too few arguments, duplicate keys, rest+key) are kept to a minority of the seeded block; the exhaustive block contains them by construction.",
+			"distinct = distinct case JSON; non-trivial = judged against the reference binder (A) or a callable, not denylisted function with a readable documented lambda list (B).",
 		N:        nCases,
 		Gen:      gen,
 		Exec:     exec,
